@@ -299,7 +299,31 @@ def _update_local_references(rules):
         if node.is_reference and counter.is_bound(node.name):
             node.is_local = True
 
+        # Remember which local names a piece of inline Python mentions, so that
+        # they can be handed to a helper function if the code ends up in one.
+        mentioned = _python_names(node)
+        if mentioned:
+            node.local_names = {x for x in mentioned if counter.is_bound(x)}
+
     visit(rules, previsit, counter.postvisit)
+
+
+def _python_names(node):
+    if isinstance(node, ex.PythonExpression):
+        sources = [node.source_code]
+    elif isinstance(node, ex.List):
+        sources = [x for x in (node.min_len, node.max_len) if isinstance(x, str)]
+    else:
+        return set()
+
+    names = set()
+    for source in sources:
+        try:
+            tree = ast.parse(source.strip(), mode='eval')
+        except SyntaxError:
+            continue
+        names.update(x.id for x in ast.walk(tree) if isinstance(x, ast.Name))
+    return names
 
 
 def _update_rule_references(rules, extends):
